@@ -426,6 +426,9 @@ class Evaluator(object):
 
     def if_stmt(self, st, env):
         c = self.ev(st.test, env)
+        if c.op == "const" and isinstance(c.a[0], bool):
+            # decided when an unrolled table row is substituted: only that branch exists
+            return self.run_keep_pc(st.body if c.a[0] else st.orelse, env)
         saved = self.pc
         self.pc = saved + (("if", c, True, None),)
         n0 = len(self.summary.sites)
@@ -555,6 +558,13 @@ class Evaluator(object):
         if it.op == "call" and tm.callee_name(it.a[0]) == "builtins.zip" and len(it.a[1]) >= 2 and all(z.op in ("tuple", "list") for z in it.a[1]) and 1 <= min(len(z.a) for z in it.a[1]) <= 16:
             n = min(len(z.a) for z in it.a[1])
             return [tm.tup([z.a[i] for z in it.a[1]]) for i in range(n)]
+        if it.op == "call" and tm.callee_name(it.a[0]) == "builtins.zip" and len(it.a[1]) >= 2 and not it.a[2] and any(z.op == "tuple" for z in it.a[1]) and all(z.op == "tuple" or (z.op == "call" and z.a[0].op in ("func", "localfunc")) for z in it.a[1]):
+            # zip(<literal names>, <result tuple of a repo call>): pairs (name_i, result[i]) - the lengths agree
+            # when the call returns as many values as there are names, which C03.ARITY / UNPACKORDER check
+            lens = {len(z.a) for z in it.a[1] if z.op == "tuple"}
+            if len(lens) == 1 and 1 <= min(lens) <= 16:
+                n = lens.pop()
+                return [tm.tup([z.a[i] if z.op == "tuple" else tm.proj(z, i) for z in it.a[1]]) for i in range(n)]
         if it.op == "call" and tm.callee_name(it.a[0]) == "builtins.enumerate" and len(it.a[1]) == 1 and not it.a[2]:
             inner = self._unroll_elements(it.a[1][0])
             if inner is not None:
@@ -621,14 +631,24 @@ class Evaluator(object):
             if rw is not None:
                 return self._for_rows(st, env, rw[0], rw[1])
         elems = self._unroll_elements(it) if UNROLL else None
-        if elems is not None and not st.orelse and not any(isinstance(n, (ast.Break, ast.Continue)) for n in _own_loop_nodes(st)):
-            # a loop over a literal collection is its unrolling
+        if elems is not None and not st.orelse and not any(isinstance(n, ast.Break) for n in _own_loop_nodes(st)):
+            # a loop over a literal collection is its unrolling; `continue` ends one copy of the body
             cur = env
-            for e in elems:
+            saved = self.pc
+            for k_, e in enumerate(elems):
                 self.assign(st.target, e, cur, st)
-                cur = self.run_keep_pc(st.body, cur)
-                if cur is None:
+                ctx = _LoopCtx("U%d_%d" % (id(st) % 100000, k_))
+                self.loopstack.append(ctx)
+                n_before = len(self.loopstack)
+                out = self.run_keep_pc(st.body, cur)
+                self.loopstack.pop()
+                ends = ([out] if out is not None else []) + ctx.continues
+                if not ends:
+                    self.pc = saved
                     return None
+                cur = ends[0] if len(ends) == 1 else self.merge_many(ends, ctx.lid + "c")
+                if ctx.continues:
+                    self.pc = saved  # what one copy established under its own tests does not hold for the next
             return cur
         return self._for_core(st, env, it, None)
 
@@ -967,7 +987,9 @@ class Evaluator(object):
         if not env:
             return None
         t = env.get(name)
-        if t is not None and t.op in ("tuple", "list", "dict", "set") and name not in _mutated_globals(self.P.modules[modname]):
+        if t is not None and t.op == "tuple" and name not in _rebound_globals(self.P.modules[modname]):
+            return t  # a tuple cannot be changed in place, wherever it travels
+        if t is not None and t.op in ("list", "dict", "set") and name not in _mutated_globals(self.P.modules[modname]):
             return t
         return None
 
@@ -1226,6 +1248,11 @@ class Evaluator(object):
             fn = args[0]
             args = args[1:]
         args, kw = self.canonical_args(fn, args, kw)
+        if base is not None and node.func.attr == "format" and base.op == "const" and isinstance(base.a[0], str) and not kw and args and all(a_.op == "const" and isinstance(a_.a[0], str) for a_ in args):
+            try:
+                return tm.const(base.a[0].format(*[a_.a[0] for a_ in args]))
+            except Exception:
+                pass
         if base is not None and node.func.attr == "count" and len(args) == 1 and not kw and tm.is_const(args[0], True) and base.op == "comp" and base.a[0] == "list" and _boolean_valued_term(base.a[1]):
             # [b(x) for x in it].count(True) with Boolean b is sum(b(x) for x in it)
             return tm.call(tm.mk("builtin", "sum"), (tm.mk("comp", "gen", base.a[1], base.a[2], base.a[3], base.a[4]),))
@@ -1569,6 +1596,28 @@ def _params_written_in_place(g):
                     r = _root_name(k.value)
                     if r in ps:
                         out.add(r)
+    return out
+
+
+def _rebound_globals(module):
+    """module-level names assigned more than once or declared `global` somewhere"""
+    cached = getattr(module, "_rebound_globals", None)
+    if cached is not None:
+        return cached
+    out = set()
+    seen = set()
+    for st in module.tree.body:
+        for n in ast.walk(st) if isinstance(st, (ast.Assign, ast.AugAssign, ast.AnnAssign, ast.For, ast.If, ast.With, ast.Try)) else []:
+            if isinstance(n, ast.Name) and isinstance(n.ctx, ast.Store):
+                if n.id in seen:
+                    out.add(n.id)
+                seen.add(n.id)
+    for n in ast.walk(module.tree):
+        if isinstance(n, ast.Global):
+            out.update(n.names)
+        elif isinstance(n, ast.AugAssign) and isinstance(n.target, ast.Name):
+            out.add(n.target.id)
+    module._rebound_globals = out
     return out
 
 
